@@ -120,7 +120,7 @@ def run(names):
                 if not os.path.exists(os.path.join(HERE, "vf", "props", p.lower() + ".py")):
                     print(f"[{name}] {p}: check not built yet")
                     continue
-                env = dict(os.environ, VERIF_SRC=dst, VERIF_NO_SHRINK="1")
+                env = dict(os.environ, VERIF_SRC=dst, VERIF_NO_SHRINK="1", VERIF_EVIDENCE_DIR=os.path.join(HERE, "out", "selftest-evidence"), VERIF_OUT_DIR=os.path.join(HERE, "out", "selftest-out"))
                 r = subprocess.run([os.path.join(HERE, "bin", "check"), p, "--tier", "quick"], env=env, capture_output=True, text=True)
                 viol = [l for l in r.stdout.splitlines() if l.startswith("VIOLATION")]
                 buckets = [l.strip() for l in r.stdout.splitlines() if l.startswith("  bucket=")]
@@ -132,8 +132,6 @@ def run(names):
                     failures.append((name, p))
         finally:
             shutil.rmtree(scratch, ignore_errors=True)
-    # the real tree's evidence files were overwritten by runs against scratch copies
-    print("NOTE: evidence/*.json now describe mutant runs; re-run the checks on /repo before committing evidence.")
     return failures
 
 
